@@ -78,6 +78,17 @@ func (l *Log) CallsOf(method string) []Call {
 func (l *Log) Size() int   { l.mu.Lock(); defer l.mu.Unlock(); return len(l.seq) }
 func (l *Log) Queued() int { l.mu.Lock(); defer l.mu.Unlock(); return len(l.queue) }
 
+// QueuedValues returns the LeafValue of the queued (not yet integrated) leaves in queue order.
+func (l *Log) QueuedValues() [][]byte {
+	l.mu.Lock()
+	defer l.mu.Unlock()
+	var out [][]byte
+	for _, lf := range l.queue {
+		out = append(out, append([]byte{}, lf.LeafValue...))
+	}
+	return out
+}
+
 // Leaf returns the integrated leaf at index i.
 func (l *Log) Leaf(i int) *trillian.LogLeaf {
 	l.mu.Lock()
